@@ -429,7 +429,35 @@ func runC19(c *CaseCtx) *CaseResult {
 		}
 		res.Obs["exhaustive-short-inputs"] += 1 + 256 + 2*65536
 	}
+	// parse the v1 data / storable registers once into CBOR item trees for the structure-preserving mutator
+	type treeEntry struct {
+		e corpusEntry
+	}
+	var treeable []corpusEntry
+	for _, e := range corpus {
+		if t, ok := parseRegisterTree(e.data); ok && string(t.encode()) == string(e.data) {
+			treeable = append(treeable, e)
+		}
+	}
+	res.Obs["corpus-registers-parsed-as-item-trees"] += len(treeable)
 	for i := 0; i < inputs; i++ {
+		if len(treeable) > 0 && i%5 < 2 {
+			// 40%: well-formed CBOR with semantic inconsistencies (counts vs lists, duplicated / missing elements, grafts)
+			e := treeable[r.Intn(len(treeable))]
+			t, _ := parseRegisterTree(e.data)
+			name := mutateTree(r, t)
+			in := t.encode()
+			if r.Intn(10) == 0 {
+				var n2 string
+				in, n2 = mutate(r, in, corpus)
+				name += "+" + n2
+			}
+			res.Obs["tree-mutated-inputs"]++
+			if !check(e, in, name) {
+				return res
+			}
+			continue
+		}
 		e := corpus[r.Intn(len(corpus))]
 		in, name := mutate(r, e.data, corpus)
 		if !check(e, in, name) {
@@ -487,9 +515,9 @@ func init() {
 		},
 		MinNonTrivial: 8,
 		Rule: "each case builds a corpus of valid registers of every slab kind from seeded histories at slab 256/1024 (root/non-root array and map data slabs, index slabs, collision slabs, large-value slabs, inlined arrays/maps/compact maps nested 4 deep) plus VERSION-0 twins produced by a re-encoder written from the decoder documentation (kept only if the library decodes them to the same content), " +
-			"then feeds 50000 (quick) / 400000 (thorough) inputs made by 1-4 stacked mutators: bit flip, byte set, truncate, delete/insert byte, splice with another register, chunk duplication, CBOR head rewrites (count/length +-1, x256, 2^16-1, 2^32-1, 2^64-1, indefinite), element-count and digest-length fields, atree tag-number swaps, head flag toggles (version nibble 0/1/2/15, root, has-next, has-inlined, any-size, slab-type bits), inlined extra-data index edits; case 0 additionally all inputs of length 0-2 and all 65536 heads + tail. " +
+			"then feeds 50000 (quick) / 400000 (thorough) inputs; 40% come from a STRUCTURE-PRESERVING mutator that parses the register into a CBOR item tree and keeps it well-formed (integer edits, duplicate / delete / swap / graft array elements, tag swaps, string lengths by whole digests, count-follows-list edits that make a count agree with a grown or shrunk list while a third list still disagrees), 60% from 1-4 stacked byte-level mutators: bit flip, byte set, truncate, delete/insert byte, splice with another register, chunk duplication, CBOR head rewrites (count/length +-1, x256, 2^16-1, 2^32-1, 2^64-1, indefinite), element-count and digest-length fields, atree tag-number swaps, head flag toggles (version nibble 0/1/2/15, root, has-next, has-inlined, any-size, slab-type bits), inlined extra-data index edits; case 0 additionally all inputs of length 0-2 and all 65536 heads + tail. " +
 			"Oracle per input: no panic (recover) / no process death in IsRootOfAnObject, HasPointers, HasSizeLimit, DecodeSlab, and ByteSize/ChildStorables (recursive) of accepted slabs; allocation delta <= 1 MiB + 512 x len(input); the input is written to disk before each call; a hang is caught by the process watchdog. non-trivial = inputs beyond the corpus were accepted and others rejected; distinct by case seed",
 		Assumptions: []string{"'all byte strings' is a mutational corpus; 'never loops' is a bounded-time observation (watchdog)", "the caller-supplied storable/type-info decoders are the test_utils / harness ones"},
-		Mandatory:   []string{"accepted-inputs", "rejected-inputs", "accessor-visits", "exhaustive-short-inputs", "corpus-v0:array-data+root", "corpus-v0:array-meta+root", "corpus-v0:map-data", "corpus-v0:map-meta+root", "corpus-v1:map-collision", "corpus-v1:storable"},
+		Mandatory:   []string{"accepted-inputs", "rejected-inputs", "accessor-visits", "exhaustive-short-inputs", "tree-mutated-inputs", "corpus-v0:array-data+root", "corpus-v0:array-meta+root", "corpus-v0:map-data", "corpus-v0:map-meta+root", "corpus-v1:map-collision", "corpus-v1:storable"},
 	})
 }
